@@ -257,11 +257,14 @@ theorem finish_bound (r : RState) (opt : Option EOpt) (tsig : Option Tsig) (pad 
       · simp at h
       · rename_i r6 h6
         simp at h; subst h
-        have hb5 : TblBelow r5.writeHeader := writeHeader_below r5 k3 k2
-        have h12' : 12 ≤ r5.writeHeader.out.length := by rw [writeHeader_length r5 k3]; exact k3
-        have := addRRset_ok_bound r5.writeHeader _ _ r6 hb5 h12' h6
+        have hb5 : TblBelow ({ r5.writeHeader with tbl := [] } : RState) := by
+          intro p hp; simp at hp
+        have h12' : 12 ≤ ({ r5.writeHeader with tbl := [] } : RState).out.length := by
+          show 12 ≤ r5.writeHeader.out.length
+          rw [writeHeader_length r5 k3]; exact k3
+        have := addRRset_ok_bound ({ r5.writeHeader with tbl := [] } : RState) _ _ r6 hb5 h12' h6
         rw [writeHeader_length r6 this.2.2.1]
-        have hm : r5.writeHeader.maxSize = r5.maxSize := rfl
+        have hm : ({ r5.writeHeader with tbl := [] } : RState).maxSize = r5.maxSize := rfl
         rw [hm, k4] at this
         exact this.1
 
@@ -291,6 +294,8 @@ theorem afterItems_ok {r r' : RState} {big pt : Bool} (h : r.afterItems big pt =
 theorem renderSections_inv (m : Message) (L : Nat) (pt : Bool) (a b : Nat) (r : RState)
     (h : m.renderSections L pt a b = .ok r) : RInv r ∧ r.maxSize + r.reserved = L ∧ r.wasPadded = false := by
   unfold Message.renderSections at h
+  split at h
+  · simp at h
   split at h
   · simp at h
   · rename_i r1 h1
